@@ -47,3 +47,74 @@ def probe(EoN, chk, entry="_ListDict_"):
                               "(proposals made: %d, other draws: %r): rejected proposals must not be returned and the loop must not change with the number of rejections"
                               % (R, fn_name, leaf.result, nchoice, extra), {"rejections": R})
     chk.part("long rejection runs", probes=n)
+
+
+def long_history(EoN, chk, nops=40000, seed=0, entry="_ListDict_"):
+    """'After ANY history': one candidate set lives through tens of thousands of operations (insert / replace /
+    non-negative increment / remove / select-and-remove), as in a long Gillespie run.  Weights are small dyadic
+    rationals, so the reference - the WeightedBag semantics: a map from candidates to weights - is exact in floating
+    point.  After every operation: size, membership and total; at checkpoints the exact selection law (decision tree
+    of choose_random under the scripted source) against weight/total."""
+    import random as pyrandom
+    from .scripted import explore
+    rng = pyrandom.Random(seed + 1606)
+    L = EoN.simulation._ListDict_(weighted=True)
+    ref = {}
+    items = list(range(10))
+    removals = 0
+    checkpoints = 0
+    marks = set([10, 100, 1000, 9999, 10000, 10001, 19999, 20000, 20001, 30000])
+
+    def fail(kind, detail, k):
+        chk.violation("%s|%s|long-history" % (entry, kind), "after %d operations (%d removals) of one weighted candidate set: %s" % (k, removals, detail),
+                      {"operations": k, "removals": removals, "seed": seed})
+
+    for k in range(1, nops + 1):
+        op = rng.choice("IIURRS")
+        x = rng.choice(items)
+        try:
+            if op == "I":
+                w = rng.choice([0, 1, 2, 3, 5, 8]) / 4.0
+                L.insert(x, weight=w)
+                ref.pop(x, None)
+                if w != 0:
+                    ref[x] = w
+            elif op == "U":
+                inc = rng.choice([0, 1, 2]) / 4.0
+                if x in ref or inc > 0:
+                    L.update(x, weight_increment=inc)
+                    ref[x] = ref.get(x, 0.0) + inc
+            elif op == "R":
+                if x in ref:
+                    L.remove(x)
+                    del ref[x]
+                    removals += 1
+            else:
+                if sum(ref.values()) > 0:
+                    y = L.random_removal() if rng.random() < 0.7 else L.choose_random()
+                    if y not in ref or ref[y] <= 0:
+                        return fail("selection-of-absent-or-zero-weight-candidate", "selected %r, candidates %r" % (y, ref), k)
+                    if y not in L:
+                        del ref[y]
+                        removals += 1
+        except Exception as ex:
+            return fail("exception:%s" % type(ex).__name__, "operation %s(%r) raised %r" % (op, x, ex), k)
+        tot = sum(ref.values())
+        if len(L) != len(ref) or any((i in L) != (i in ref) for i in items):
+            return fail("membership", "candidates %r, reference %r" % (sorted(L.items), sorted(ref)), k)
+        if L.total_weight() != tot:
+            return fail("total-not-sum", "total_weight() = %r, the sum of the current weights is %r" % (L.total_weight(), tot), k)
+        if (removals in marks or k % 5000 == 0) and tot > 0 and len(ref) >= 2:
+            marks.discard(removals)
+            checkpoints += 1
+            leaves = explore(lambda: L.choose_random(), max_leaves=5000)
+            got = {}
+            for lf in leaves:
+                if lf.error is not None:
+                    return fail("exception:%s" % type(lf.error).__name__, "choose_random raised %r" % (lf.error,), k)
+                got[lf.result] = got.get(lf.result, 0.0) + lf.prob
+            for i, w in ref.items():
+                if abs(got.get(i, 0.0) - w / tot) > 1e-9:
+                    return fail("selection-probability", "candidate %r selected with probability %r, weight/total = %r" % (i, got.get(i, 0.0), w / tot), k)
+    chk.cov["evaluations"] += nops
+    chk.part("one candidate set through a long history", operations=nops, removals=removals, selection_law_checkpoints=checkpoints)
